@@ -278,12 +278,11 @@ rf("rf-inline-makeid-and-rename-handlers", [
     (P, "self._publishError, request)", "self._onPublishTimeout, request)"),
     (P, "    def _publishError(self, request):", "    def _onPublishTimeout(self, request):"),
     (B, "        def doPingError():", "        def pingTimedOut():"),
-    (B, "            self._pingReq.alarm.cancel()\n            doPingError()\n            return\n", "            self._pingReq.alarm.cancel()\n            pingTimedOut()\n            return\n"),
     (B, "self.callLater(self._pingReq.keepalive, doPingError)", "self.callLater(self._pingReq.keepalive, pingTimedOut)"),
 ])
 rf("rf-pdu-encode-via-join", [
     (D, "    encoded = bytearray(2)\n    encoded.extend(bytearray(string, encoding='utf-8'))\n    l = len(encoded)-2\n    if(l > 65535):\n        raise StringValueError(l)\n    encoded[0] = l >> 8\n    encoded[1] = l & 0xFF\n    return encoded\n",
-        "    data = string.encode('utf-8')\n    l = len(data)\n    if(l > 65535):\n        raise StringValueError(l)\n    return bytearray((l >> 8, l & 0xFF)) + bytearray(data)\n"),
+        "    data = bytearray(string, encoding='utf-8')     # (not string.encode(): a bytes argument must keep raising TypeError)\n    l = len(data)\n    if(l > 65535):\n        raise StringValueError(l)\n    return bytearray((l >> 8, l & 0xFF)) + data\n"),
 ])
 rf("rf-reactor-calllater-direct", [
     (P, "        request.alarm = self.callLater(interval, self._subscribeError, request)\n", "        request.alarm = reactor.callLater(interval, self._subscribeError, request)\n"),
